@@ -163,6 +163,20 @@ def make_group(rng, scn):
     depends on the members nobody in the group depends on.'''
     tasks = scn['tasks']
     ntask = len(tasks)
+    if rng.random() < 0.2:
+        # an EMPTY sub-graph between two layers: what depends on it depends
+        # on what it depends on
+        lo = rng.randrange(1, ntask)
+        gdeps = [j for j in range(lo) if rng.random() < 0.6] or [lo - 1]
+        gdependees = [k for k in range(lo, ntask) if rng.random() < 0.6] \
+            or [lo]
+        for k in gdependees:
+            tasks[k]['hard'] = sorted(set(tasks[k]['hard']) | set(gdeps))
+        for tsk in tasks:
+            tsk['soft'] = [j for j in tsk['soft'] if j not in tsk['hard']]
+        scn['group'] = {'members': [], 'inner': {}, 'deps': gdeps,
+                        'dependees': gdependees}
+        return
     size = rng.choice((2, 2, 3)) if ntask > 3 else 2
     lo = rng.randrange(0, ntask - size + 1)
     members = list(range(lo, lo + size))
@@ -526,11 +540,18 @@ def build_graphs(scn, mods, objs):
             hard.add_dependency(sub, on=objs[j])
         for k in group['dependees']:
             hard.add_dependency(objs[k], on=sub)
+    implied = set()
+    if group and not group['members']:
+        implied = {(k, j) for k in group['dependees'] for j in group['deps']}
+        # (edges that exist in their own right stay)
+        implied -= {(k, j) for k, j in implied
+                    if scn.get('group_direct') and [k, j] in
+                    scn['group_direct']}
     for i in by_rank:
         spec = specs[i]
         if i not in members:
             for j in spec['hard']:
-                if j not in members:
+                if j not in members and (i, j) not in implied:
                     hard.add_dependency(objs[i], on=objs[j])
         for j in spec['soft']:
             soft.add_dependency(objs[i], on=objs[j])
